@@ -81,11 +81,12 @@ const (
 )
 
 const (
-	c07Cap      = 15 * time.Second // completion-signal cap: reaching it is inconclusive
-	c07StallCap = 1500 * time.Millisecond
-	c07FpStall  = "restart-expected-child-stays-suspended"
-	c07FpCount  = "restart-count-reset-when-running-actor-restarts"
+	c07Cap       = 15 * time.Second // completion-signal cap: reaching it is inconclusive
+	c07StallCap  = 5 * time.Second  // a restart that the barriers say was decided must show up within this time
+	c07FpStall   = "restart-expected-child-stays-suspended"
+	c07FpCount   = "restart-count-reset-when-running-actor-restarts"
 	c07FpSysDown = "stop-directive-races-deathwatch-system-shuts-down"
+	c07FpDropped = "directive-not-applied-restarted-actor-dropped-from-tree"
 )
 
 type c07ErrA struct{ N int }
@@ -167,8 +168,10 @@ type c07Failure struct {
 
 type c07Step struct {
 	Op      int        `json:"op"`
-	Target  int        `json:"target"` // -1 = P, 0.. = child index
+	Pick    int        `json:"pick"` // selects the target among the actors the operation applies to (Pick%4 == 0: P when possible)
 	F       c07Failure `json:"f"`
+	Repeat  int        `json:"repeat"`   // the fault is injected this many times (crash loop) ...
+	Alt     bool       `json:"alt"`      // ... into the same actor, or alternating between the siblings
 	LongGap bool       `json:"long_gap"` // sleep >= 4 windows before the fault (windows <= 150 ms only)
 	N       int        `json:"n"`
 	FromPID bool       `json:"from_pid"` // send with an actor as sender instead of the system
@@ -216,6 +219,24 @@ func c07GenDir(t *rapid.T, label string) int {
 func c07GenSup(t *rapid.T, label string) c07Sup {
 	var s c07Sup
 	s.OneForAll = rapid.Bool().Draw(t, label+"_ofa")
+	if rapid.IntRange(0, 3).Draw(t, label+"_profile") == 0 {
+		// crash-loop profile: everything restarts, small budget inside a long window
+		// (budget exhaustion, group suspension and alternating siblings are otherwise rare)
+		s.Any, s.PostAny = c07Restart, -1
+		s.OneForAll = rapid.IntRange(0, 3).Draw(t, label+"_pofa") != 0
+		s.HasRetry = true
+		s.MaxRetries = rapid.IntRange(1, 3).Draw(t, label+"_pmax")
+		s.TimeoutMs = 10000
+		if rapid.IntRange(0, 1).Draw(t, label+"_pbackoff") == 0 {
+			// resetAfter takes precedence over the WithRetry timeout: with a short
+			// one (0 = maxDelay) the loop never exhausts the budget
+			s.Backoff = true
+			s.InitMs = rapid.IntRange(1, 3).Draw(t, label+"_pinit")
+			s.MaxMs = 4 * s.InitMs
+			s.ResetMs = rapid.SampledFrom([]int{0, 0, 120, 10000, 10000}).Draw(t, label+"_preset")
+		}
+		return s
+	}
 	nr := rapid.IntRange(0, 4).Draw(t, label+"_nrules")
 	for i := 0; i < nr; i++ {
 		s.Rules = append(s.Rules, c07Rule{
@@ -254,7 +275,7 @@ func c07GenSup(t *rapid.T, label string) c07Sup {
 }
 
 func c07GenFailure(t *rapid.T, label string) c07Failure {
-	k := rapid.SampledFrom([]int{c07KErr, c07KErr, c07KErr, c07KErr, c07KPanicErr, c07KPanicErr, c07KPanicStr, c07KErrWrap, c07KPanicNil}).Draw(t, label+"_kind")
+	k := rapid.SampledFrom([]int{c07KErr, c07KErr, c07KErr, c07KErr, c07KErr, c07KErr, c07KPanicErr, c07KPanicErr, c07KPanicErr, c07KPanicStr, c07KPanicStr, c07KErrWrap, c07KErrWrap, c07KPanicNil}).Draw(t, label+"_kind")
 	f := c07Failure{Kind: k}
 	switch k {
 	case c07KErr, c07KPanicErr:
@@ -276,18 +297,13 @@ func c07Gen(t *rapid.T) c07Case {
 	n := rapid.OneOf(rapid.IntRange(1, 4), rapid.IntRange(3, 10)).Draw(t, "nsteps")
 	for i := 0; i < n; i++ {
 		var s c07Step
-		s.Op = rapid.SampledFrom([]int{c07OpFault, c07OpFault, c07OpFault, c07OpFault, c07OpFault, c07OpInc, c07OpInc, c07OpReinstate}).Draw(t, "op")
-		s.Target = rapid.SampledFrom([]int{-1, 0, 0, 0, 1, 1, 1, 2, 2}).Draw(t, "target")
-		if s.Target >= c.Children {
-			s.Target = s.Target % c.Children
-		}
-		switch s.Op {
-		case c07OpFault:
-			s.F = c07GenFailure(t, "f")
-			s.LongGap = rapid.IntRange(0, 5).Draw(t, "longgap") == 0
-		case c07OpInc:
-			s.N = rapid.IntRange(1, 3).Draw(t, "n")
-		}
+		s.Op = rapid.SampledFrom([]int{c07OpFault, c07OpFault, c07OpFault, c07OpFault, c07OpFault, c07OpInc, c07OpInc, c07OpReinstate, c07OpReinstate}).Draw(t, "op")
+		s.Pick = rapid.IntRange(0, 11).Draw(t, "pick")
+		s.F = c07GenFailure(t, "f") // a Reinstate with nothing suspended falls back to this fault
+		s.Repeat = rapid.SampledFrom([]int{1, 1, 1, 1, 2, 2, 3, 4}).Draw(t, "repeat")
+		s.Alt = rapid.IntRange(0, 2).Draw(t, "alt") == 0
+		s.LongGap = rapid.IntRange(0, 5).Draw(t, "longgap") == 0
+		s.N = rapid.IntRange(1, 3).Draw(t, "n")
 		s.FromPID = rapid.Bool().Draw(t, "frompid")
 		c.Steps = append(c.Steps, s)
 	}
@@ -573,10 +589,10 @@ func (c07Sentinel) Receive(ctx *ReceiveContext) {
 // ---- system under test ---------------------------------------------------------------
 
 var (
-	c07Sys  ActorSystem
-	c07Z    *PID
-	c07Seq  atomic.Int64
-	c07MSeq atomic.Int64
+	c07Sys    ActorSystem
+	c07Z      *PID
+	c07Seq    atomic.Int64
+	c07MSeq   atomic.Int64
 	c07SysSeq atomic.Int64
 )
 
@@ -662,22 +678,22 @@ func c07Wait(limit time.Duration, cond func() bool) bool {
 // ---- model of the family ---------------------------------------------------------------
 
 type c07MActor struct {
-	name      string
-	parent    int // index, -1 for G
-	state     int
-	inc       int // PreStart count
-	stopsMin  int // PostStop count bounds
-	stopsMax  int
-	count     int // state counter since PreStart
-	restarts  int // restarts since spawn
-	resetSeen bool // restarted at least once while running (RestartCount finding)
-	lastRunningRestartBase int // restarts performed since the last restart-while-running (inclusive)
-	faults    []int // possible values of the consecutive fault counter
-	hasLast   bool
-	lastLo    time.Time
-	lastHi    time.Time
-	signals   []c07ExpSig // expected PanicSignals received
-	suspends  int         // number of transitions into suspended that must have been published
+	name                   string
+	parent                 int // index, -1 for G
+	state                  int
+	inc                    int // PreStart count
+	stopsMin               int // PostStop count bounds
+	stopsMax               int
+	count                  int   // state counter since PreStart
+	restarts               int   // restarts since spawn
+	resetSeen              bool  // restarted at least once while running (RestartCount finding)
+	lastRunningRestartBase int   // restarts performed since the last restart-while-running (inclusive)
+	faults                 []int // possible values of the consecutive fault counter
+	hasLast                bool
+	lastLo                 time.Time
+	lastHi                 time.Time
+	signals                []c07ExpSig // expected PanicSignals received
+	suspends               int         // number of transitions into suspended that must have been published
 }
 
 type c07ExpSig struct {
@@ -748,8 +764,38 @@ func (r *c07Run) dumpHistory() {
 	}
 }
 
+// dropped names a family member that is alive by the model but no longer
+// registered in the actor tree (finding F-C07-3 / F-C10-1: the death watch
+// deletes the node of an actor that was restarted while running, after the
+// restart has re-attached it). Such an actor has no parent any more
+// (PID.Parent() == nil) and is invisible to tree.siblings: directives can no
+// longer reach it, and its own failures only suspend it.
+func (r *c07Run) dropped() string {
+	sys, ok := c07Sys.(*actorSystem)
+	if !ok {
+		return ""
+	}
+	for i, mm := range r.m {
+		if mm.state == c07Stopped || !mm.resetSeen || i >= len(r.pids) {
+			continue
+		}
+		if _, ok := sys.tree().node(r.pids[i].ID()); !ok {
+			// a restart still in flight re-attaches the node within moments; only a
+			// node that stays away is the finding
+			id := r.pids[i].ID()
+			if !c07Wait(time.Second, func() bool { _, ok := sys.tree().node(id); return ok }) {
+				return mm.name
+			}
+		}
+	}
+	return ""
+}
+
 func (r *c07Run) fail(fp, format string, args ...any) {
 	r.dumpHistory()
+	if name := r.dropped(); name != "" {
+		r.x.Failf(c07FpDropped, "%s was restarted while running and is no longer registered in the actor tree (the death watch deleted its node after the restart re-attached it); consequence observed: %s", name, fmt.Sprintf(format, args...))
+	}
 	r.x.Failf(fp, format, args...)
 }
 
@@ -781,6 +827,38 @@ func (r *c07Run) sentinel() bool {
 		c07Z.doReinstate()
 	}
 	return ok
+}
+
+// applies reports whether operation op can be performed on actor i now.
+func (r *c07Run) applies(op, i int) bool {
+	a := r.m[i]
+	switch op {
+	case c07OpInc:
+		return a.state == c07Running
+	case c07OpReinstate:
+		return i >= 1 && a.state == c07Suspended && r.m[a.parent].state == c07Running
+	default:
+		return i >= 1 && a.state == c07Running && r.m[a.parent].state == c07Running
+	}
+}
+
+// pick selects the target of an operation among the actors it applies to
+// (a function of the case and the model only); -1 when there is none.
+func (r *c07Run) pick(op, pick int) int {
+	var kids []int
+	for i := 2; i < len(r.m); i++ {
+		if r.applies(op, i) {
+			kids = append(kids, i)
+		}
+	}
+	pOK := r.applies(op, 1)
+	switch {
+	case pOK && (pick%4 == 0 || len(kids) == 0):
+		return 1
+	case len(kids) > 0:
+		return kids[(pick/4+pick)%len(kids)]
+	}
+	return -1
 }
 
 func (r *c07Run) stopSubtree(i int) {
@@ -904,75 +982,95 @@ func c07RunOnce(x *vfkit.X, c c07Case, attempt int, last **c07Run) (out c07Outco
 	}()
 
 	for si, s := range c.Steps {
-		ti := 1
-		if s.Target >= 0 {
-			ti = 2 + s.Target
+		op := s.Op
+		if op == c07OpReinstate && r.pick(c07OpReinstate, s.Pick) < 0 {
+			op = c07OpFault
 		}
-		ma := r.m[ti]
-		par := ma.parent
-		switch s.Op {
-		case c07OpInc:
-			if ma.state != c07Running {
-				r.class("step_skipped_target_not_running")
-				continue
-			}
-			var err error
-			if s.FromPID {
-				err = g.Tell(ctx, r.pids[ti], &c07Inc{N: s.N})
-			} else {
-				err = Tell(ctx, r.pids[ti], &c07Inc{N: s.N})
-			}
-			if err != nil {
-				r.fail("tell-to-running-actor-fails", "step %d: Tell(inc) to %s failed: %v (model: running)", si, ma.name, err)
-			}
-			ma.count += s.N
-			r.h.add("step %d: inc %s by %d", si, ma.name, s.N)
-		case c07OpReinstate:
-			if ma.state != c07Suspended || r.m[par].state != c07Running {
-				r.class("step_skipped_reinstate_not_applicable")
-				continue
-			}
-			r.h.add("step %d: %s.Reinstate(%s)", si, r.m[par].name, ma.name)
-			if err := r.pids[par].Reinstate(r.pids[ti]); err != nil {
-				r.fail("reinstate-suspended-child-fails", "step %d: %s.Reinstate(%s) = %v; the child is suspended and its parent is running", si, r.m[par].name, ma.name, err)
-			}
-			ma.state = c07Running
-			r.class("reinstate")
-		case c07OpFault:
-			if ma.state != c07Running || r.m[par].state != c07Running {
-				r.class("step_skipped_target_or_parent_not_running")
-				continue
-			}
-			sup := r.supOf(ti)
-			if sup.window > 0 {
-				switch {
-				case sup.window <= 30*time.Millisecond:
-					time.Sleep(4*sup.window + 5*time.Millisecond)
-				case s.LongGap && sup.window <= 150*time.Millisecond:
-					time.Sleep(4*sup.window + 10*time.Millisecond)
-					r.class("long_gap_slept")
+		reps := 1
+		if op == c07OpFault && s.Repeat > 1 {
+			reps = s.Repeat
+		}
+		ti := r.pick(op, s.Pick)
+		for rep := 0; rep < reps; rep++ {
+			if rep > 0 && s.Alt && ti >= 2 {
+				// alternate: the next sibling the fault applies to
+				n := len(r.m) - 2
+				for k := 1; k <= n; k++ {
+					if cand := 2 + (ti-2+k)%n; r.applies(op, cand) {
+						if cand != ti {
+							r.class("crash_loop_alternates_between_siblings")
+						}
+						ti = cand
+						break
+					}
 				}
 			}
-			r.faultN++
-			fm := &c07Fault{F: s.F, ID: r.faultN}
-			r.h.add("step %d: fault #%d %s -> %s", si, fm.ID, s.F, ma.name)
-			t0 := time.Now()
-			var err error
-			if s.FromPID {
-				err = g.Tell(ctx, r.pids[ti], fm)
-			} else {
-				err = Tell(ctx, r.pids[ti], fm)
+			if ti < 0 || (rep > 0 && !r.applies(op, ti)) {
+				r.class("step_not_applicable")
+				break
 			}
-			if err != nil {
-				r.fail("tell-to-running-actor-fails", "step %d: Tell(fault) to %s failed: %v (model: running)", si, ma.name, err)
+			if rep > 0 {
+				r.class("crash_loop_repeat")
 			}
-			r.nFaults++
-			if o := r.settle(si, ti, s.F, fm, t0, 0); o.inconclusive != "" || o.stall != "" {
+			ma := r.m[ti]
+			par := ma.parent
+			switch op {
+			case c07OpInc:
+				var err error
+				if s.FromPID {
+					err = g.Tell(ctx, r.pids[ti], &c07Inc{N: s.N})
+				} else {
+					err = Tell(ctx, r.pids[ti], &c07Inc{N: s.N})
+				}
+				if err != nil {
+					r.fail("tell-to-running-actor-fails", "step %d: Tell(inc) to %s failed: %v (model: running)", si, ma.name, err)
+				}
+				ma.count += s.N
+				r.h.add("step %d: inc %s by %d", si, ma.name, s.N)
+			case c07OpReinstate:
+				r.h.add("step %d: %s.Reinstate(%s)", si, r.m[par].name, ma.name)
+				if err := r.pids[par].Reinstate(r.pids[ti]); err != nil {
+					r.fail("reinstate-suspended-child-fails", "step %d: %s.Reinstate(%s) = %v; the child is suspended and its parent is running", si, r.m[par].name, ma.name, err)
+				}
+				ma.state = c07Running
+				r.class("reinstate")
+			case c07OpFault:
+				sup := r.supOf(ti)
+				if sup.window > 0 {
+					switch {
+					case sup.window <= 30*time.Millisecond:
+						time.Sleep(4*sup.window + 5*time.Millisecond)
+					case s.LongGap && sup.window <= 150*time.Millisecond:
+						time.Sleep(4*sup.window + 10*time.Millisecond)
+						r.class("long_gap_slept")
+					}
+				}
+				r.faultN++
+				fm := &c07Fault{F: s.F, ID: r.faultN}
+				r.h.add("step %d.%d: fault #%d %s -> %s", si, rep, fm.ID, s.F, ma.name)
+				if ti == 1 {
+					r.class("fault_on_parent")
+				} else {
+					r.class("fault_on_child")
+				}
+				t0 := time.Now()
+				var err error
+				if s.FromPID {
+					err = g.Tell(ctx, r.pids[ti], fm)
+				} else {
+					err = Tell(ctx, r.pids[ti], fm)
+				}
+				if err != nil {
+					r.fail("tell-to-running-actor-fails", "step %d: Tell(fault) to %s failed: %v (model: running)", si, ma.name, err)
+				}
+				r.nFaults++
+				if o := r.settle(si, ti, s.F, fm, t0, 0); o.inconclusive != "" || o.stall != "" {
+					return o
+				}
+			}
+			if o := r.verify(fmt.Sprintf("after step %d.%d", si, rep)); o.inconclusive != "" {
 				return o
 			}
-		}
-		if o := r.verify(fmt.Sprintf("after step %d", si)); o.inconclusive != "" {
-			return o
 		}
 	}
 	// late effects (a restart that must not happen is an asynchronous goroutine)
@@ -986,8 +1084,7 @@ func c07RunOnce(x *vfkit.X, c c07Case, attempt int, last **c07Run) (out c07Outco
 	if o := r.verify("at the end"); o.inconclusive != "" {
 		return o
 	}
-	r.verifyEvents(sub)
-	return c07Outcome{}
+	return r.verifyEvents(sub)
 }
 
 // settle waits for and judges the handling of a failure of actor ti.
@@ -1001,7 +1098,13 @@ func (r *c07Run) settle(si, ti int, f c07Failure, orig any, t0 time.Time, depth 
 	if !r.sentinel() {
 		return c07Outcome{inconclusive: "inconclusive_sentinel_timeout"}
 	}
-	if !r.marker(par) {
+	// Two markers through the parent: Panicking / PanicSignal travel through the
+	// parent's system mailbox, the marker through its user mailbox. runTurn looks
+	// at the system mailbox and then at the user mailbox once per iteration, so
+	// ONE user message can overtake a control message enqueued before it (the
+	// worker may be between the two looks); the iteration after it serves the
+	// system mailbox first, so the second marker cannot.
+	if !r.marker(par) || !r.marker(par) {
 		return c07Outcome{inconclusive: "inconclusive_marker_timeout"}
 	}
 	t1 := time.Now()
@@ -1145,7 +1248,7 @@ func (r *c07Run) settle(si, ti int, f c07Failure, orig any, t0 time.Time, depth 
 		}
 		r.class("restart_applied")
 		stalled := -1
-		ok := c07Wait(c07Cap, func() bool {
+		ok := c07Wait(c07StallCap+sup.maxDelay, func() bool {
 			for _, ri := range restarted {
 				a, mm := r.acts[ri], r.m[ri]
 				if a.preStarts.Load() < int64(mm.inc) || a.postStart.Load() < int64(mm.inc) || !r.pids[ri].IsRunning() {
@@ -1156,6 +1259,14 @@ func (r *c07Run) settle(si, ti int, f c07Failure, orig any, t0 time.Time, depth 
 			return true
 		})
 		if !ok {
+			if name := r.dropped(); name != "" {
+				// positive evidence instead of a stall: the actor lost its tree node
+				if r.x.Known(c07FpDropped) {
+					r.class("known_restarted_actor_dropped_from_tree")
+					return c07Outcome{inconclusive: "known_restarted_actor_dropped_from_tree"}
+				}
+				r.fail("restart-not-applied", "step %d: %s failed with %s, directive Restart: %s is not restarted", si, ma.name, f, r.m[stalled].name)
+			}
 			a, mm := r.acts[stalled], r.m[stalled]
 			if a.preStarts.Load() < int64(mm.inc) && r.pids[stalled].IsSuspended() {
 				r.h.add("stall: %s is still suspended, PreStart ran %d times, model expects %d", mm.name, a.preStarts.Load(), mm.inc)
@@ -1202,6 +1313,11 @@ func (r *c07Run) lastSignal(i int) any {
 // verify compares every family member with the model.
 func (r *c07Run) verify(when string) c07Outcome {
 	ctx := context.Background()
+	if name := r.dropped(); name != "" && r.x.Known(c07FpDropped) {
+		// listed: nothing after this point can be judged for this family
+		r.class("known_restarted_actor_dropped_from_tree")
+		return c07Outcome{inconclusive: "known_restarted_actor_dropped_from_tree"}
+	}
 	for i, mm := range r.m {
 		pid, a := r.pids[i], r.acts[i]
 		running, suspended := pid.IsRunning(), pid.IsSuspended()
@@ -1301,29 +1417,41 @@ func (r *c07Run) verify(when string) c07Outcome {
 }
 
 // verifyEvents: the events on the system's stream agree with the model.
-func (r *c07Run) verifyEvents(sub eventstream.Subscriber) {
+func (r *c07Run) verifyEvents(sub eventstream.Subscriber) c07Outcome {
 	restarted, suspended, stopped := map[string]int{}, map[string]int{}, map[string]int{}
-	for msg := range sub.Iterator() {
-		switch ev := msg.Payload().(type) {
-		case *ActorRestarted:
-			restarted[ev.ActorPath().Name()]++
-		case *ActorSuspended:
-			suspended[ev.ActorPath().Name()]++
-		case *ActorStopped:
-			stopped[ev.ActorPath().Name()]++
+	drain := func() {
+		for msg := range sub.Iterator() {
+			switch ev := msg.Payload().(type) {
+			case *ActorRestarted:
+				restarted[ev.ActorPath().Name()]++
+			case *ActorSuspended:
+				suspended[ev.ActorPath().Name()]++
+			case *ActorStopped:
+				stopped[ev.ActorPath().Name()]++
+			}
 		}
 	}
+	// an event is published by the goroutine that performed the transition right
+	// after the state change the harness waited for: give it time to get there
+	// (missing after the cap = inconclusive; too many = violation at any time)
+	complete := c07Wait(c07Cap, func() bool {
+		drain()
+		for _, mm := range r.m {
+			if restarted[mm.name] < mm.restarts || suspended[mm.name] < mm.suspends || (mm.state == c07Stopped && stopped[mm.name] < 1) {
+				return false
+			}
+		}
+		return true
+	})
 	for _, mm := range r.m {
-		if restarted[mm.name] != mm.restarts {
+		if restarted[mm.name] > mm.restarts {
 			r.fail("events-restarted-disagree", "event stream: %d ActorRestarted event(s) for %s, the model (and the state queries) say %d restarts", restarted[mm.name], mm.name, mm.restarts)
 		}
-		if suspended[mm.name] < mm.suspends {
-			r.fail("events-suspended-missing", "event stream: %d ActorSuspended event(s) for %s, it ended up suspended %d times", suspended[mm.name], mm.name, mm.suspends)
-		}
-		if mm.state == c07Stopped && stopped[mm.name] < 1 {
-			r.fail("events-stopped-missing", "event stream: no ActorStopped event for %s, which is stopped", mm.name)
-		}
 	}
+	if !complete {
+		return c07Outcome{inconclusive: "inconclusive_events_timeout"}
+	}
+	return c07Outcome{}
 }
 
 func (r *c07Run) classify() {
